@@ -721,10 +721,12 @@ def c18_cases(rng, tier, arches):
             found = [rng.choice(nums) for _ in range(ns)]
             found += [rng.choice(found) for _ in range(rng.randint(0, ns))]            # repeated sites
             found += [rng.choice(unknown_nums) for _ in range(rng.randint(0, 2))]     # numbers without a name
+            if rng.random() < 0.5:
+                found += [min(nums)] + ([max(nums)] if rng.random() < 0.5 else [])    # boundary numbers (0: the zero value of a failed lookup)
             rng.shuffle(found)
             fnames = sorted(set(dict(table)[x] for x in found if x in dict(table)))
             notfound = [s for s in names_all if s not in fnames]
-            shape = rng.choice(["none", "bl", "al", "disjoint", "disjoint", "overlap", "junk"])
+            shape = rng.choice(["none", "bl", "al", "disjoint", "disjoint", "overlap", "junk", "junk"])
             bl, al = [], []
             if shape in ("bl", "disjoint", "overlap", "junk"):
                 bl = rng.sample(fnames, min(len(fnames), rng.randint(1, 4))) + rng.sample(notfound, rng.randint(0, 2))
